@@ -53,9 +53,12 @@ type World struct {
 	NumFuncs int
 	// lazily computed
 	allFuncs  map[*ssa.Function]bool
+	Canon     *CanonLog
 	funcDecls map[*types.Func]*ast.FuncDecl
 	litByPos  map[token.Pos]*ast.FuncLit
 }
+
+var writeBaselineMode bool
 
 func repoRoot() string {
 	if r := os.Getenv("VERIF_REPO"); r != "" {
@@ -95,7 +98,45 @@ func Load(tier string, whole bool, overlay map[string][]byte) (*World, error) {
 	if len(pkgs) < 28 {
 		return nil, fmt.Errorf("loader: only %d repository packages loaded (expected >= 28)", len(pkgs))
 	}
-	w := &World{RepoRoot: root, Tier: tier, Pkgs: pkgs, ByPath: map[string]*packages.Package{}, SSA: map[string]*ssa.Package{}}
+	var canon *CanonLog
+	if os.Getenv("VERIF_NOCANON") == "" && !writeBaselineMode {
+		clean := true
+		for _, p := range pkgs {
+			if len(p.Errors) > 0 {
+				clean = false
+			}
+		}
+		if clean {
+			ov, lg := canonicalize(*cfg, pkgs)
+			canon = lg
+			if ov != nil {
+				cfg2 := *cfg
+				cfg2.Overlay = ov
+				pkgs2, err2 := packages.Load(&cfg2, "./...", modCore+"/...")
+				ok2 := err2 == nil && len(pkgs2) == len(pkgs)
+				if ok2 {
+					for _, p := range pkgs2 {
+						if len(p.Errors) > 0 {
+							ok2 = false
+							lg.Failed = append(lg.Failed, fmt.Sprintf("canonical form of %s does not type-check: %v", p.PkgPath, p.Errors[0]))
+						}
+					}
+				}
+				if d := os.Getenv("VERIF_DUMPCANON"); d != "" {
+					os.MkdirAll(d, 0o755)
+					for name, b := range ov {
+						os.WriteFile(d+"/"+strings.ReplaceAll(strings.TrimPrefix(name, root+"/"), "/", "__"), b, 0o644)
+					}
+				}
+				if ok2 {
+					pkgs = pkgs2
+				} else {
+					lg.Failed = append(lg.Failed, "canonical form rejected; the source is analysed as it is")
+				}
+			}
+		}
+	}
+	w := &World{Canon: canon, RepoRoot: root, Tier: tier, Pkgs: pkgs, ByPath: map[string]*packages.Package{}, SSA: map[string]*ssa.Package{}}
 	var errs []string
 	packages.Visit(pkgs, nil, func(p *packages.Package) {
 		w.ByPath[p.PkgPath] = p
